@@ -66,10 +66,14 @@ func (tt twoTag) value() interface{} {
 
 // the call and its by-construction expectation
 func (tt twoTag) call(r *gal.Rng) (*walkCall, []expE, string) {
-	tag := r.Pick([]string{"", "valid", "alt", "alt", "other"})
+	tag := r.Pick([]string{"", "valid", "alt", "alt", "other", "explicit-empty"})
 	call := &walkCall{Entry: "struct", Tag: tag, Src: tt.value()}
 	var exps []expE
 	over := ""
+	if tag == "explicit-empty" { // the tag name "" passed explicitly: no field has rules under it
+		call.Tag, call.EmptyTag = "", true
+		return call, nil, tag
+	}
 	switch tag {
 	case "", "valid":
 		exps = []expE{{"C", "B", fmt.Sprintf("M%db", tt.i)}, {"C", "C", fmt.Sprintf("M%dc", tt.i)}}
@@ -89,6 +93,16 @@ func (tt twoTag) call(r *gal.Rng) (*walkCall, []expE, string) {
 		}
 		exps = ne
 		over = "+override"
+	} else if r.Chance(20) && tag != "other" { // a per-call function under a built-in name: this call only
+		call.Local = map[string]string{"to": "L1"}
+		var ne []expE
+		for _, e := range exps {
+			if e.path != "A" {
+				ne = append(ne, e)
+			}
+		}
+		exps = append([]expE{{"C", "A", "FNL1"}}, ne...) // A = "abc" is non-zero: its to rule (tag valid or alt) writes FNL1
+		over = "+localfn"
 	}
 	return call, exps, tag + over
 }
